@@ -205,6 +205,9 @@ pub fn establish(tcp: bool, tiny_connects: bool, dir: &CaseDir) -> Result<(Tiny,
             let (l, port) = libc_tcp_listener(8)?;
             let s = no_panic("TcpStream::connect", || TcpStream::connect(&loopback(port)))?.map_err(|e| unexpected("TcpStream::connect", &e, "libc listener with room"))?;
             let p = libc_accept(l.fd()).map_err(|e| Stop::Inconclusive(format!("accept: errno {e}")))?;
+            if !tcp_same_connection(s.as_raw_fd().value(), p.fd()) {
+                return Err(Stop::Inconclusive("the connection the harness accepted is not the one the case made (a foreign client on the port)".into()));
+            }
             Ok((Tiny::T(s), p))
         } else {
             let path = dir.sock();
@@ -218,6 +221,9 @@ pub fn establish(tcp: bool, tiny_connects: bool, dir: &CaseDir) -> Result<(Tiny,
         let mut b = bind_tiny(tcp, dir)?;
         let p = b.libc_connect()?;
         let s = b.accept()?;
+        if tcp && !tcp_same_connection(s.raw(), p.fd()) {
+            return Err(Stop::Inconclusive("the connection the listener handed out is not the one the case made (a foreign client on the port)".into()));
+        }
         Ok((s, p))
     }
 }
